@@ -1006,15 +1006,18 @@ PROPS = {
         "assumptions": [],
     },
     "C01": {
-        "lean_module": ["Keto.Props.C01", "Keto.Props.C01complete", "Keto.Props.C01ref"],
-        "theorems": ["Keto.refEval_sound_pos", "Keto.refEval_complete_pos", "Keto.refEval_iff_Mem_pos", "Keto.C01_engine_eq_ref_pos",
+        "lean_module": ["Keto.Props.C01", "Keto.Props.C01complete", "Keto.Props.C01ref", "Keto.Props.C01neg"],
+        "theorems": ["Keto.tr_fa_exclusive", "Keto.refEval_sound_all", "Keto.refEval_complete_all", "Keto.refEval_decides",
+                     "Keto.refEval_fuel_independent", "Keto.tr_iff_mem_pos", "Keto.tr_of_mem_all", "Keto.fa_not_mem",
+                     "Keto.C01_engine_iff_tr_pos", "Keto.refEval_not_stratified_bad",
+                     "Keto.refEval_sound_pos", "Keto.refEval_complete_pos", "Keto.refEval_iff_Mem_pos", "Keto.C01_engine_eq_ref_pos",
                      "Keto.C01_depth_sites_tie", "Keto.C01_sound_pos", "Keto.build_sound", "Keto.Cfg.pos_of_posB",
                      "Keto.C01_complete_pos_general", "Keto.C01_exact_pos_general", "Keto.C01_complete_pos", "Keto.C01_exact_pos",
                      "Keto.C01_complete_pos_strict", "Keto.C01_complete_norewrite", "Keto.C01_complete_strict_counterexample"],
         "streams": [{"name": "engine-c01", "n": {"quick": 250, "thorough": 3000}, "oracle": oracle_c01, "thorough_seeds": 3},
                     {"name": "engine-wide", "n": {"quick": 10, "thorough": 80}, "oracle": oracle_c01, "thorough_seeds": 2}],
         "rule": ENGINE_RULE,
-        "partial": "exactness (allowed iff member) is proved for configurations without '!' (Mem is the positive least fixpoint), in default mode and in strict mode on stores that conform to the declared types; for configurations with '!' the implementation is compared with the executable reference semantics refEval on every generated case whose limits are not binding; schedules: the sequential checkgroup semantics is proved to be what the concurrent group computes (C15_cg_*), and every fourth case also runs with the real concurrent group",
+        "partial": "exactness of the ENGINE MODEL (allowed iff member) is proved for configurations without '!' (Mem, the positive least fixpoint; = Tr), in default mode and in strict mode on stores that conform to the declared types. For configurations with '!' the semantics is the stratified one (Tr / Fa, Keto/Spec/Stratified.lean: strictly positive mutual inductives, proved mutually exclusive); the executable reference evaluator refEval is proved sound and complete against it for ALL configurations (refEval = t implies Tr, = f implies Fa, bad only for non-stratified instances such as p = !p), and the implementation is compared with refEval on every generated case whose limits are not binding - the engine model's exactness against Tr/Fa under '!' is not proved. Schedules: the sequential checkgroup semantics is proved to be what the concurrent group computes (C15_cg_*), and every fourth case also runs with the real concurrent group",
         "assumptions": [],
     },
     "C02": {
